@@ -25,12 +25,20 @@ TRUSTED = ["instrumentation: get_all_edges / swap_condition wrapped on the insta
 TECHNIQUE = ("Coq proof (swap invariant, induction over the oracle stream of the rewiring state machine, verified "
              "decidable invariant checker) + model/implementation correspondence under scripted randomness")
 LEVEL_TEXT = (
-    "General theorems in coq/Props/C11.v on the Gallina model of rewire(): see notes/units/mcmc.md for the exact "
-    "list and strengths. The verified checker c11_check (sound for the invariant Inv) is run on every "
-    "intermediate graph the real rewire() produces; the model is compared with the real code after every accepted "
-    "swap under scripted randomness.")
-LEVEL_NOTE = ("Trusted: Coq kernel; extraction + OCaml driver + Python harness for the correspondence; networkx "
-              "primitives as modelled. Modelled, not verified: adjacency order (oracle), G.copy().")
+    "General theorems in coq/Props/C11.v on the Gallina model of rewire() (state machine over the oracle stream), for "
+    "every clean network, target, limits (incl. the defaults 25 and 10*|E|), every RNG outcome and any number of "
+    "accepted swaps: every graph the run passes through keeps the vertex annotations, is a simple graph on the same "
+    "vertices (no self-loop, no duplicate), has the same edge count, the same per-vertex per-topology degrees and the "
+    "same per-motif-id per-topology edge counts, and the draw set mirrors the edge set (C11_rewire_inv_partial, "
+    "C11_swap_preserves_inv_partial). PARTIAL: the shape clause (edges sharing a motif id keep the motif's shape) is "
+    "REFUTED for the code as it is (C11_shape_refuted, open known finding: new corner edges carry the id of the motif "
+    "they left) and PROVED in general for the repaired id rule (C11_shape_fixed). The verified checkers (sound for "
+    "the specification) judge every intermediate graph of the real rewire(); the model is compared with the real "
+    "code after every accepted swap under scripted randomness, incl. second calls on the same object.")
+LEVEL_NOTE = ("Trusted: Coq kernel; extraction + OCaml driver + Python harness for the correspondence; networkx primitives "
+              "as modelled. Modelled, not verified: adjacency order (oracle answer, validated as a permutation), G.copy(). "
+              "Checker completeness not proved (soundness is). Open finding C11b reported as KNOWN-FINDING; the check "
+              "follows the implementation's id rule (crossed / repaired) and enforces the shape clause for the repaired one.")
 
 
 def corpus():
